@@ -475,7 +475,14 @@ class CppPlans:
             e = cpp_type_text(ta[0]).split("::")[-1]
             if e not in self.enum_base:
                 raise PlanError("unknown enum " + e)
-            return "(TEnum %s)" % CPP_INT[self.enum_base[e]]
+            b = self.enum_base[e]
+            seen = 0
+            while b not in CPP_INT and b.split("::")[-1] in self.alias and seen < 20:     # enum class E : ns::Alias  with  using Alias = uint8_t;
+                b = self.alias[b.split("::")[-1]]
+                seen += 1
+            if b not in CPP_INT:
+                raise PlanError("the underlying type %s of enum %s is not an integer type" % (self.enum_base[e], e))
+            return "(TEnum %s)" % CPP_INT[b]
         if name == y + "Monostate":
             return None
         if name == y + "Optional":
